@@ -17,7 +17,7 @@
           `_simulator_precision_set`, `_inputs_map`, `_source`, the phase-noise snapshot, observers,
           `add` / `add_herald` / `set_postselection` / `clear_postselection` / detectors /
           `with_input` of a Fock state or of a distribution / the automatic photon filter /
-          a NoiseModel updated in place, `probs(precision)`).
+          a NoiseModel updated in place, `probs(precision)`, `samples`).
 
   Values that the caches do not inspect are abstract identifiers (`Nat`): a circuit is `(m, uid)` where
   `uid` names the unitary computed by `set_circuit`; a list of mask strings is `(sid, len)`; heralds,
@@ -687,6 +687,10 @@ inductive PrOp
   | withInput (k : InKind) (i n : Nat)
   | setFilter (k : Nat)
   | probs (prec : Option Nat)
+  /-- `Processor.samples(…)` (a sampling engine): a NEW `NoisySamplingSimulator` at every call, given the linear
+  circuit, the stored filter, the current post-selection, heralds and detectors, and as provider either
+  `(_source, _input_state)` (Fock-state input) or `source_distribution` (a distribution given by the user) -/
+  | samples
   deriving Repr
 
 /-- which configuration the returned numbers belong to -/
@@ -708,6 +712,8 @@ inductive PrOut
   | ok
   | exc (e : String)
   | res (a : PrAns)
+  /-- `samples`: what the sampling simulator of this call was given (`prec` is `none`) -/
+  | smp (a : PrAns)
   deriving DecidableEq, Repr
 
 /-- `_generate_noisy_input` / `_inputs_map = input_state` -/
@@ -768,6 +774,26 @@ def stepPr (persist : Bool) (s : Pr) : PrOp → Pr × PrOut
                   auto := if persist then (s.auto || s.filt.isNone) else s.auto,
                   sim := some g, inputsMap := some im, precSet := prec.isSome },
          .res ⟨s.comps, g.her, g.ps, s.det, s.noise.1, im.1, im.2.kind, im.2.id, im.2.her, f, g.prec⟩)
+  | .samples =>
+    match s.input with
+    | none => (s, .exc "NotConfigured")
+    | some i =>
+      match effFilter s i with
+      | none => (s, .exc "ValueError")
+      | some f =>
+        -- nothing is kept from an earlier call: the sampling simulator is new, heralds / post-selection /
+        -- detectors are read now; a Fock-state input goes with the live `_source` (not through `_inputs_map`),
+        -- a distribution is read through `source_distribution`
+        let im := if i.kind = .svd then s.inputsMap.getD (genMap s.source i) else genMap s.source i
+        ({ s with filt := if persist then some f else s.filt,
+                  auto := if persist then (s.auto || s.filt.isNone) else s.auto,
+                  inputsMap := if i.kind = .svd then some im else s.inputsMap },
+         .smp ⟨s.comps, s.her, s.ps, s.det, s.noise.1, im.1, im.2.kind, im.2.id, im.2.her, f, none⟩)
+
+/-- the queries of the Processor machine -/
+def PrOp.isQuery : PrOp → Bool
+  | .probs _ | .samples => true
+  | _ => false
 
 structure PrCfg where
   comps : Nat
@@ -783,6 +809,10 @@ structure PrCfg where
 /-- what the user set last (the noise: the values at the last assignment) -/
 def Pr.config (s : Pr) : PrCfg :=
   ⟨s.comps, s.her, s.nHer, s.ps, s.det, s.noise, s.input.map fun i => (i.kind, i.id, i.n), s.filtUser⟩
+
+/-- the configuration the code as it is answers for: the photon filter is the STORED one (the one the user gave,
+or the automatic value an earlier query wrote — open known finding `processor-auto-filter-persists`) -/
+def Pr.configStored (s : Pr) : PrCfg := { s.config with filt := s.filt }
 
 /-- the same with the values the held NoiseModel object shows now -/
 def Pr.shown (s : Pr) : PrCfg := { s.config with noise := s.held }
@@ -805,6 +835,10 @@ def canonPr (cfg : PrCfg) : List PrOp :=
 def freshPr (persist : Bool) (cfg : PrCfg) (prec : Option Nat) : PrOut :=
   (stepPr persist (SM.exec (stepPr persist) initPr (canonPr cfg)) (.probs prec)).2
 
+/-- what a freshly constructed processor, given only the configuration, answers to the query `q` -/
+def freshPrQ (persist : Bool) (cfg : PrCfg) (q : PrOp) : PrOut :=
+  (stepPr persist (SM.exec (stepPr persist) initPr (canonPr cfg)) q).2
+
 /-- closed form of `probs(precision)` in terms of the configuration only -/
 def specPr (cfg : PrCfg) (prec : Option Nat) : PrOut :=
   match cfg.input with
@@ -815,5 +849,19 @@ def specPr (cfg : PrCfg) (prec : Option Nat) : PrOut :=
     | some f =>
       .res ⟨cfg.comps, cfg.her, cfg.ps, cfg.det, cfg.noise.1, if k = InKind.bs then some cfg.noise.1 else none, k, i,
             if k = InKind.bs then cfg.her else 0, f, prec⟩
+
+/-- closed form of every query in terms of the configuration only -/
+def specPrQ (cfg : PrCfg) : PrOp → PrOut
+  | .probs prec => specPr cfg prec
+  | .samples =>
+    match specPr cfg none with
+    | .res a => .smp a
+    | o => o
+  | _ => .ok
+
+/-- operations that do not set the photon filter -/
+def PrOp.setsFilter : PrOp → Bool
+  | .setFilter _ => true
+  | _ => false
 
 end PM.C05
